@@ -300,6 +300,7 @@ pub fn c05_depth(tier: &str) -> usize {
 pub fn c05_worker(tier: &str, k: usize, n: usize, ctx: &mut Ctx) {
   let thorough = tier == "thorough";
   c05_long_sequences(ctx, k, n, if thorough { 300 } else { 96 });
+  c05_far_positions(ctx, k, n, thorough);
   let depth = c05_depth(tier);
   let mut st = Striper::new(k, n);
   for inner in c05_inners(thorough) {
@@ -423,6 +424,64 @@ pub fn c05_long_sequences(ctx: &mut Ctx, k: usize, n: usize, max_len: usize) {
   }
 }
 
+/// Positions far beyond the text are legal (they are clamped): every pair (thorough: triple) of
+/// replacements whose start / end are drawn from a ladder reaching u32::MAX, in both push orders,
+/// against the text model. A sort key that packs or narrows the position fields goes wrong only here.
+pub const C05_FAR_LADDER: [u32; 12] = [0, 1, 2, 3, 5, 6, 7, 1 << 30, (1 << 30) + 1, (1 << 31) + 2, u32::MAX - 1, u32::MAX];
+
+pub fn c05_far_positions(ctx: &mut Ctx, k: usize, n: usize, thorough: bool) {
+  let inner = Term::orig("abcdef", "far.js");
+  let text = model::model_text(&inner);
+  let mut ranges: Vec<(u32, u32)> = Vec::new();
+  for (i, s) in C05_FAR_LADDER.iter().enumerate() {
+    for e in &C05_FAR_LADDER[i..] {
+      ranges.push((*s, *e));
+    }
+  }
+  let mut st = Striper::new(k, n);
+  let mut run = |ctx: &mut Ctx, muts: Vec<Repl>| {
+    ctx.states += 1;
+    ctx.evaluations += 1;
+    ctx.transitions += muts.len() as u64;
+    crate::set_current_desc(format!("{{\"far_positions\":{}}}", serde_json::to_string(&muts).unwrap()));
+    let case = || json!({"inner": serde_json::to_value(&inner).unwrap(), "ops": muts.iter().map(|m| serde_json::to_value(RsOp::Mut(m.clone())).unwrap()).chain([json!("Source")]).collect::<Vec<_>>()});
+    let r = observe::guarded(|| {
+      let rs = fresh_rs(&inner, &muts);
+      let streamed = observe::stream(&rs, true, false).ok().and_then(|s| s.text());
+      (rs.source().into_owned(), rs.rope().to_string(), rs.size(), streamed)
+    });
+    let want = model::splice_string(&text, &muts);
+    match r {
+      Err(e) => ctx.violation("panic", "far positions".into(), None, case, muts.len(), e),
+      Ok((s, rope, size, streamed)) => {
+        if s != want {
+          ctx.violation("source_vs_model", "far positions".into(), None, case, muts.len(), format!("replacements {:?}: source()={s:?}, model={want:?}", muts.iter().map(|m| (m.start, m.end, &m.content)).collect::<Vec<_>>()));
+        } else if rope != want || size != want.len() || streamed.as_deref() != Some(&want) {
+          ctx.violation("views_vs_model", "far positions".into(), None, case, muts.len(), format!("replacements {:?}: rope()={rope:?} size()={size} streamed={streamed:?}, model={want:?}", muts.iter().map(|m| (m.start, m.end, &m.content)).collect::<Vec<_>>()));
+        }
+        ctx.nontrivial += 1;
+        ctx.traces_validated += 1;
+      }
+    }
+  };
+  for (ia, a) in ranges.iter().enumerate() {
+    for (ib, b) in ranges.iter().enumerate() {
+      if !st.mine() {
+        continue;
+      }
+      for enf in [1u8, 0, 2] {
+        run(ctx, vec![Repl::new(a.0, a.1, "X"), Repl::new(b.0, b.1, "y").enf(enf)]);
+      }
+      if thorough {
+        // a third one from a coarser ladder, pushed last
+        for c in ranges.iter().skip((ia + ib) % 3).step_by(3) {
+          run(ctx, vec![Repl::new(a.0, a.1, "X"), Repl::new(b.0, b.1, "y"), Repl::new(c.0, c.1, "<z>")]);
+        }
+      }
+    }
+  }
+}
+
 pub fn c05_bounds(tier: &str) -> Value {
   let thorough = tier == "thorough";
   json!({
@@ -432,6 +491,7 @@ pub fn c05_bounds(tier: &str) -> Value {
     "mutators": rs_mutators("abc", thorough).len(),
     "observers": RS_OBSERVERS.len(),
     "mutator_alphabet_on_abc": serde_json::to_value(rs_mutators("abc", thorough)).unwrap(),
+    "far_positions": format!("every ordered pair{} of replacements with start <= end drawn from the ladder {:?} (78 ranges), second one with each enforce value; source / rope / size / streamed text against the model", if thorough { " (and triples with every third range)" } else { "" }, C05_FAR_LADDER),
     "long_sequences": format!("8 key patterns (all equal, descending, alternating, sawtooth, rotating enforce, overlapping, mixed, beyond the end) x every length 1..={} x observers never / every 7th push", if thorough { 300 } else { 96 }),
   })
 }
